@@ -69,6 +69,9 @@ def catalogue():
     add('delete_resource.index', lambda: [delete_resource(-1)], lambda: [delete_resource(0)], ['C02', 'C10', 'C16'])
     add('join_with_self', lambda: [join_with_self('res_1', ['k'], {'k': None, 'cnt': {'aggregate': 'count'}})],
         lambda: [join_with_self('res_2', ['k'], {'k': None, 'm': {'name': 'id', 'aggregate': 'max'}})], ['C11'])
+    from dataflows import join
+    add('join.wildcard', lambda: [join('res_1', ['k'], 'res_2', ['k'], fields={'*': None, 'cnt': {'aggregate': 'count'}})],
+        lambda: [join('res_2', ['k'], 'res_1', ['k'], fields={'m': {}})], ['C02', 'C11'])
     add('update_resource', lambda: [update_resource(-1, title='T')], lambda: [update_resource(0, title='Z')], ['C10'])
     add('update_schema', lambda: [update_schema(-1, missingValues=['', 'NA'])], lambda: [update_schema(0, missingValues=['x'])], ['C10'])
     add('set_primary_key', lambda: [set_primary_key(['id'])], lambda: [set_primary_key(['k'], resources=0)], ['C10'])
